@@ -83,9 +83,14 @@ class SampleWorld:
                 raise RoleLost("kernel role `%s` (no local producer found)" % k)
         roles["uvec"] = producer(mds[0][2]["rv"], "u_vectors")
         roles["shift"] = producer(mds[0][2]["rv"], "shift")
-        for k in ("lmatrix", "momenta", "vpoly", "uvec", "shift"):
+        for k in ("lmatrix", "vpoly", "uvec"):
             if roles[k] is None:
                 raise RoleLost("kernel role `%s` (no local producer found)" % k)
+        # the momentum map / shift kernels are only named in reports: when the value is assembled on several paths the
+        # enclosing function stands in for them
+        for k in ("momenta", "shift"):
+            if roles[k] is None:
+                roles[k] = s
         return roles
 
     def run(self):
@@ -133,7 +138,7 @@ class SampleWorld:
         I = Interp(self.f, models=hooks)
         self.I = I
         s = roles and ctx.roles.sample()
-        ctx.fn(s.path, *[roles[k].path for k in ("lmatrix", "uvec", "vpoly", "momenta", "shift")])
+        ctx.fn(s.path, *sorted(set(roles[k].path for k in ("lmatrix", "uvec", "vpoly", "momenta", "shift"))))
         # bind sample's parameters by type
         args = []
         for l in s.locals[1:s.arg_count + 1]:
